@@ -268,10 +268,14 @@ pub fn plan(tier: &str) -> (PropMeta, Vec<Job>) {
     for part in [2u8, 3, 4] {
         jobs.push(Job { prop: "C09".into(), tier: tier.into(), spec: serde_json::to_value(PermJob { part, shard: 0, shards: 1, full: tier != "quick" }).unwrap() });
     }
+    let hist_ops = (HIST_USERS.len() * (hist_records().len() + 1)) as u16;
+    for first in 0..hist_ops {
+        jobs.push(Job { prop: "C09".into(), tier: tier.into(), spec: serde_json::to_value(PermJob { part: 5, shard: first, shards: hist_ops, full: tier != "quick" }).unwrap() });
+    }
     let meta = PropMeta {
         id: "C09",
         level: "exploration",
-        rule: "part 1: all 2^10 global records x (no stream record | 2^6 stream-1 flags x (no topic table | empty table | 2^4 flags for topic 1)) = 1 180 672 permission records (plus the same topic flags attached to topic 2 for the id-confusion check), each evaluated by every one of the 35 real rule functions on targets (stream,topic) in {1,2}x{1,2}; oracles: no panic, monotonicity under every single added flag / added record, isolation (stream 1 records never open stream 2; a topic-1 record never opens topic 2), topic-id symmetry of stream-level operations, root grants everything, and an upper bound from the most generous reading of the documented hierarchy. A case is non-trivial and distinct by its record. part 2: every System operation under sessions that never logged in / are stale; part 3: System outcome = rule outcome for one user per record in {none, each single flag, root}; part 4: every SDK call over TCP before login, and permission updates / user deletions observed on an already open second connection".into(),
+        rule: "part 1: all 2^10 global records x (no stream record | 2^6 stream-1 flags x (no topic table | empty table | 2^4 flags for topic 1)) = 1 180 672 permission records (plus the same topic flags attached to topic 2 for the id-confusion check), each evaluated by every one of the 35 real rule functions on targets (stream,topic) in {1,2}x{1,2}; oracles: no panic, monotonicity under every single added flag / added record, isolation (stream 1 records never open stream 2; a topic-1 record never opens topic 2), topic-id symmetry of stream-level operations, root grants everything, and an upper bound from the most generous reading of the documented hierarchy. A case is non-trivial and distinct by its record. part 2: every System operation under sessions that never logged in / are stale; part 3: System outcome = rule outcome for one user per record in {none, each single flag, root}; part 4: every SDK call over TCP before login, and permission updates / user deletions observed on an already open second connection; part 5: every history (depth 3 quick / 4 thorough) of create-or-update and delete operations for two users over 12 permission records (one per table / index the Permissioner keeps, for streams 1 and 2, so user ids coincide and differ with stream ids) on the real Permissioner: every rule outcome for every user must equal that of a Permissioner given only the final records, and a deleted user is denied everything".into(),
         bounds: json!({"records": 1180672, "rule_functions": 35, "targets": TARGETS}),
         assumptions: vec![
             "the reference for the upper bound resolves every ambiguity of the documentation towards 'allowed' (manage_* includes sending), so it can only under-report".into(),
@@ -788,13 +792,191 @@ pub fn run_job(job: &Job) -> JobResult {
     match pj.part {
         1 => part1(&pj, &mut res),
         2 | 3 => part23(&pj, &mut res),
-        _ => part4(&mut res),
+        4 => part4(&mut res),
+        _ => part5(&pj, &mut res),
     }
     res.nontrivial_keys.sort();
     res.nontrivial_keys.dedup();
     res
 }
 
-pub fn replay(_r: &Value) -> Vec<Violation> {
+// ---------------------------------------------------------------- part 5: histories of permission changes
+
+/// Records of the history alphabet: one per table / index the Permissioner keeps, for streams 1 and 2.
+fn hist_records() -> Vec<(&'static str, Option<Permissions>)> {
+    let sp = |flags: u8, topic: Option<u8>| StreamPermissions {
+        manage_stream: flags & S_MSTR != 0,
+        read_stream: flags & S_RSTR != 0,
+        manage_topics: flags & S_MTOP != 0,
+        read_topics: flags & S_RTOP != 0,
+        poll_messages: flags & S_POLL != 0,
+        send_messages: flags & S_SEND != 0,
+        topics: topic.map(|t| {
+            let mut m = AHashMap::new();
+            m.insert(1u32, TopicPermissions { manage_topic: t & T_MAN != 0, read_topic: t & T_READ != 0, poll_messages: t & T_POLL != 0, send_messages: t & T_SEND != 0 });
+            m
+        }),
+    };
+    let with = |g: u16, streams: Vec<(u32, StreamPermissions)>| {
+        Some(Permissions { global: global_of(g), streams: if streams.is_empty() { None } else { Some(streams.into_iter().collect()) } })
+    };
+    vec![
+        ("no-permissions", None),
+        ("empty", with(0, vec![])),
+        ("global-poll", with(G_POLL, vec![])),
+        ("global-send", with(G_SEND, vec![])),
+        ("global-read-streams", with(G_RSTR, vec![])),
+        ("stream1-poll", with(0, vec![(1, sp(S_POLL, None))])),
+        ("stream1-send", with(0, vec![(1, sp(S_SEND, None))])),
+        ("stream2-poll", with(0, vec![(2, sp(S_POLL, None))])),
+        ("stream2-send", with(0, vec![(2, sp(S_SEND, None))])),
+        ("stream1-read+topic1-poll-send", with(0, vec![(1, sp(S_RSTR, Some(T_POLL | T_SEND)))])),
+        ("stream1-all+stream2-all", with(0, vec![(1, sp(0x3F, None)), (2, sp(0x3F, None))])),
+        ("global-all", with(0x3FF, vec![])),
+    ]
+}
+
+const HIST_USERS: [u32; 2] = [1, 2];
+
+/// op index -> (user, Some(record index) = create-or-update, None = delete)
+fn hist_op(i: usize, nrec: usize) -> (u32, Option<usize>) {
+    let per_user = nrec + 1;
+    let u = HIST_USERS[i / per_user];
+    let k = i % per_user;
+    (u, if k < nrec { Some(k) } else { None })
+}
+
+fn all_outcomes(p: &Permissioner, user: u32, defs: &[OpDef]) -> Result<Vec<bool>, String> {
+    let mut out = Vec::with_capacity(defs.len() * 4);
+    for d in defs {
+        for (st, tp) in TARGETS {
+            match catch_unwind(AssertUnwindSafe(|| (d.rule)(p, user, st, tp))) {
+                Ok(x) => out.push(x.is_ok()),
+                Err(_) => return Err(format!("evaluating {}(stream {st}, topic {tp}) for user {user} panicked: {}", d.name, crate::node::last_panic())),
+            }
+        }
+    }
+    Ok(out)
+}
+
+fn hist_describe(h: &[usize], recs: &[(&'static str, Option<Permissions>)]) -> String {
+    h.iter()
+        .map(|&i| match hist_op(i, recs.len()) {
+            (u, Some(r)) => format!("set(user {u}, {})", recs[r].0),
+            (u, None) => format!("delete(user {u})"),
+        })
+        .collect::<Vec<_>>()
+        .join(" ; ")
+}
+
+/// Runs one history on the real Permissioner and compares every rule outcome of every user with a
+/// Permissioner that was given only the final records.
+fn hist_check(h: &[usize], recs: &[(&'static str, Option<Permissions>)], defs: &[OpDef], names: &[String]) -> Result<u64, String> {
+    let mut real = Permissioner::default();
+    let mut present: std::collections::BTreeMap<u32, usize> = Default::default();
+    for &i in h {
+        match hist_op(i, recs.len()) {
+            (u, Some(r)) => {
+                if present.contains_key(&u) {
+                    real.update_permissions_for_user(u, recs[r].1.clone());
+                } else {
+                    real.init_permissions_for_user(u, recs[r].1.clone());
+                }
+                present.insert(u, r);
+            }
+            (u, None) => {
+                real.delete_permissions_for_user(u);
+                present.remove(&u);
+            }
+        }
+    }
+    let mut fresh = Permissioner::default();
+    for (u, r) in &present {
+        fresh.init_permissions_for_user(*u, recs[*r].1.clone());
+    }
+    let mut sig = 0u64;
+    for u in HIST_USERS {
+        let a = all_outcomes(&real, u, defs)?;
+        let b = all_outcomes(&fresh, u, defs)?;
+        for (i, (x, y)) in a.iter().zip(b.iter()).enumerate() {
+            if x != y {
+                return Err(format!(
+                    "user {u} is {} {} after the history, but {} it when the server starts from the final permission records ({})",
+                    if *x { "allowed" } else { "denied" },
+                    names[i],
+                    if *y { "allowed" } else { "denied" },
+                    present.get(&u).map(|r| recs[*r].0).unwrap_or("user deleted")
+                ));
+            }
+            if !present.contains_key(&u) && *x {
+                return Err(format!("deleted user {u} is still allowed {}", names[i]));
+            }
+        }
+        sig = hash64(&serde_json::to_vec(&(sig, a)).unwrap());
+    }
+    Ok(sig)
+}
+
+fn part5(pj: &PermJob, res: &mut JobResult) {
+    let defs = ops();
+    let names: Vec<String> = defs.iter().flat_map(|d| TARGETS.iter().map(move |(s, t)| format!("{}({s},{t})", d.name))).collect();
+    let recs = hist_records();
+    let nops = HIST_USERS.len() * (recs.len() + 1);
+    let depth = if pj.full { 4 } else { 3 };
+    let first = pj.shard as usize;
+    let mut idx = vec![0usize; depth - 1];
+    let mut reported = std::collections::HashSet::new();
+    loop {
+        let mut h = vec![first];
+        h.extend(idx.iter().cloned());
+        // every prefix is a history of its own; prefixes are checked where they are the whole remaining
+        // history of leading zeros to avoid re-checking them in every leaf
+        res.executions += 1;
+        res.evaluations += 1;
+        res.transitions += h.len() as u64;
+        match hist_check(&h, &recs, &defs, &names) {
+            Ok(sig) => {
+                res.nontrivial_keys.push(hash64(&serde_json::to_vec(&h).unwrap()));
+                res.obs_keys.push(sig);
+            }
+            Err(m) => {
+                let class: String = m.chars().filter(|c| !c.is_ascii_digit()).take(60).collect();
+                let key = format!("C09:permission-history:{}", class.split(" after").next().unwrap_or("").replace(' ', "-"));
+                if reported.insert(key.clone()) && res.violations.len() < 20 {
+                    res.violations.push(v(&key, format!("history [{}]: {m}", hist_describe(&h, &recs)), json!({"kind":"perm-history","history": h})));
+                }
+                res.bump("histories_with_violation");
+            }
+        }
+        let mut k = idx.len();
+        let mut done = true;
+        while k > 0 {
+            k -= 1;
+            idx[k] += 1;
+            if idx[k] < nops {
+                done = false;
+                break;
+            }
+            idx[k] = 0;
+        }
+        if done {
+            break;
+        }
+    }
+    let _ = nops;
+}
+
+pub fn replay(r: &Value) -> Vec<Violation> {
+    if r["kind"] == "perm-history" {
+        let h: Vec<usize> = serde_json::from_value(r["history"].clone()).unwrap_or_default();
+        let defs = ops();
+        let names: Vec<String> = defs.iter().flat_map(|d| TARGETS.iter().map(move |(s, t)| format!("{}({s},{t})", d.name))).collect();
+        let recs = hist_records();
+        println!("history [{}]", hist_describe(&h, &recs));
+        return match hist_check(&h, &recs, &defs, &names) {
+            Ok(_) => Vec::new(),
+            Err(m) => vec![v("C09:permission-history", format!("history [{}]: {m}", hist_describe(&h, &recs)), r.clone())],
+        };
+    }
     Vec::new()
 }
